@@ -38,6 +38,10 @@ QUICK = [
     _k('periodic_transport', opt='periodic', kind='transport', T=4, eff=0.5),
     _k('periodic_transport_costs', opt='periodic', kind='transport', T=4, eff=0.5, costs=True),
     _k('periodic_plant', opt='periodic', kind='plant', T=4),
+    _k('periodic_take', opt='periodic', kind='take', T=4),
+    _k('coarse_take_contract', opt='coarse', kind='take', T=4),
+    _k('periodic_contract_window', opt='periodic', kind='contract', T=6, win=(1, 5)),
+    _k('periodic_multicommodity', opt='periodic', kind='multicommodity', T=4),
     _k('coarse_contract_dst_days_q', opt='coarse', kind='contract', T=4, coarse='2d', freq=('d', '2021-03-27', '2021-03-31', 'CET')),
 ]
 THOROUGH = QUICK + [
@@ -45,14 +49,10 @@ THOROUGH = QUICK + [
     _k('coarse_transport_T6_win', opt='coarse', kind='transport', T=6, eff=0.5, win=(1, 6)),
     _k('coarse_storage_onevar', opt='coarse', kind='storage', T=4, eff=None),
     _k('coarse_storage_T6_3h', opt='coarse', kind='storage', T=6, eff=0.75, coarse='3h'),
-    _k('coarse_take_contract', opt='coarse', kind='take', T=4),
     _k('coarse_contract_straddles_end', opt='coarse', kind='contract', T=5, win=(2, 9)),
     _k('coarse_contract_halfhour', opt='coarse', kind='contract', T=4, freq='30min', coarse='h'),
     _k('periodic_contract_caps_ts', opt='periodic', kind='caps_ts', T=4),
-    _k('periodic_multicommodity', opt='periodic', kind='multicommodity', T=4),
     _k('periodic_storage_dur_T8', opt='periodic', kind='storage', T=8, eff=0.75, duration='4h'),
-    _k('periodic_contract_window', opt='periodic', kind='contract', T=6, win=(1, 5)),
-    _k('periodic_take', opt='periodic', kind='take', T=4),
     _k('coarse_contract_dst_days', opt='coarse', kind='contract', T=4, coarse='2d', freq=('d', '2021-03-27', '2021-03-31', 'CET')),
     _k('coarse_transport_dst_days', opt='coarse', kind='transport', T=4, coarse='2d', eff=0.5, freq=('d', '2021-10-30', '2021-11-03', 'CET')),
 ]
